@@ -3,6 +3,7 @@ package rules
 import (
 	"fmt"
 	"go/token"
+	"go/types"
 	"sort"
 	"strings"
 
@@ -128,10 +129,78 @@ func checkC03(c *Ctx) {
 		r.Floor("C03/PANIC/nil-result", "(value, error) producers in pkg/server/smtp", nProd, 1)
 	}
 	c.c01Atomic("C03/ATOMIC", m)
-	// inside the DATA read itself a failed read (the peer went away before the final dot)
-	// must surface as an error; otherwise the bytes read so far are delivered
-	r.Rule("C03/ATOMIC/read-error", "in the DATA-read function no return reachable on the error edge of the bulk read (io.ReadAll/ReadFull/Copy/ReadDotBytes/...) reports success")
-	n := c.errNotSwallowed("C03/ATOMIC/read-error", []*ssa.Function{m.dataRead}, func(name string) bool {
+	c.c03ReadError("C03/ATOMIC/read-error", m)
+	c.c03OneReader(m)
+}
+
+// c03OneReader: a session reads its connection through one buffered reader, created with the
+// session. A second buffer over the same connection (for the DATA block, say) reads ahead past
+// what it was created for: command lines that arrived with the end of the data are swallowed
+// with it (no reply, the client waits), and bytes the first reader had already buffered never
+// reach the second (a partial message is stored and the rest is run as commands).
+func (c *Ctx) c03OneReader(m *smtpModel) {
+	r, p := c.R, c.P
+	r.Rule("C03/READER/one-buffer", "in the SMTP package buffered readers (bufio.NewReader*, textproto.NewReader, textproto.NewConn) are created only where the Session is allocated, or to replace the Session's reader field (STARTTLS)")
+	var bad []string
+	nCtor := 0
+	for _, fn := range m.fns {
+		fn := fn
+		allocates := false
+		var made []ssa.Instruction
+		eng.EachInstr(fn, func(in ssa.Instruction) {
+			switch x := in.(type) {
+			case *ssa.Alloc:
+				if pt, ok := x.Type().(*types.Pointer); ok && types.Identical(pt.Elem(), m.sess) {
+					allocates = true
+				}
+			case *ssa.Call:
+				switch eng.CalleeName(x.Common()) {
+				case "bufio.NewReader", "bufio.NewReaderSize", "bufio.NewReadWriter", "net/textproto.NewReader", "net/textproto.NewConn":
+					made = append(made, in)
+				}
+			}
+		})
+		if allocates {
+			nCtor += len(made)
+			continue
+		}
+		for _, in := range made {
+			// replacing the session's reader (after STARTTLS the connection is a new one) is
+			// not a second reader: the value goes into a field of the Session
+			replaces := false
+			if v, ok := in.(ssa.Value); ok && v.Referrers() != nil {
+				for _, ref := range *v.Referrers() {
+					if st, ok := ref.(*ssa.Store); ok && st.Val == v {
+						if fa, ok := st.Addr.(*ssa.FieldAddr); ok {
+							if pt, ok := fa.X.Type().(*types.Pointer); ok && types.Identical(pt.Elem(), m.sess) {
+								replaces = true
+							}
+						}
+					}
+				}
+			}
+			if replaces {
+				nCtor++
+				continue
+			}
+			bad = append(bad, eng.CalleeName(in.(*ssa.Call).Common())+" at "+p.InstrPos(in)+" in "+shortFn(fn))
+		}
+	}
+	sort.Strings(bad)
+	if len(bad) > 0 {
+		r.Bad("C03/READER/one-buffer", "session-code", "", "a second buffered reader is created over the session's input: %s — whatever it reads ahead beyond its purpose (the commands after the end of DATA) is lost, and what the session's own reader had already buffered never reaches it", strings.Join(bad, "; "))
+	} else {
+		r.Ok("C03/READER/one-buffer", "session-code", "", "%d buffered reader(s), all created where the Session is allocated", nCtor)
+	}
+	r.Floor("C03/READER/one-buffer", "buffered readers created with the session", nCtor, 1)
+}
+
+// c03ReadError: inside the DATA read itself a failed read (the peer went away before the final
+// dot) must surface as an error; otherwise the bytes read so far are delivered.
+func (c *Ctx) c03ReadError(rule string, m *smtpModel) {
+	r := c.R
+	r.Rule(rule, "in the DATA-read function no return reachable on the error edge of the bulk read (io.ReadAll/ReadFull/Copy/ReadDotBytes/...) reports success")
+	n := c.errNotSwallowed(rule, []*ssa.Function{m.dataRead}, func(name string) bool {
 		switch name {
 		case "io.ReadAll", "io.ReadFull", "io.ReadAtLeast", "io.Copy", "io.CopyN", "io/ioutil.ReadAll",
 			"(*net/textproto.Reader).ReadDotBytes", "(*net/textproto.Reader).ReadDotLines", "(*bytes.Buffer).ReadFrom":
@@ -139,7 +208,7 @@ func checkC03(c *Ctx) {
 		}
 		return false
 	}, false, "a connection that ends in the middle of DATA leaves a partial (or empty) message in every accepted recipient's mailbox")
-	r.Floor("C03/ATOMIC/read-error", "bulk reads in the DATA-read function", n, 1)
+	r.Floor(rule, "bulk reads in the DATA-read function", n, 1)
 }
 
 func (c *Ctx) c03Sequence(pfx string, m *smtpModel, t *smtpTS) {
